@@ -315,4 +315,38 @@ example := resume_equivalent {} 1 4 8 (by decide) (by decide) (by simp) (by simp
 /-- suspending after 6 bytes persists one chunk of 4 and drops the 2 buffered bytes -/
 example : (trackedSegments [1, 2, 3, 4, 5, 6, 7, 8, 9, 10, 11, 12, 13] 1 4 8 {} [[5, 1]]).1.chunks = [⟨1, 0, [1, 2, 3, 4]⟩] := by decide
 
+/-- **failed_resume_pristine.**  A rejected Resume — whatever the reason: bucket not tracked, stream not
+    pristine, no marker, marker not in state `uploading`, other chunk size, invalid stored chunk — leaves the
+    stream exactly as it was; in particular it has not adopted the marker it found.  (Resume never writes
+    to the store: the model function returns no store.) -/
+theorem failed_resume_pristine (st : Store) (s : UploadStream) (e : Err)
+    (h : (s.resume st).2.2 = some e) : (s.resume st).1 = s := by
+  revert h
+  unfold UploadStream.resume
+  repeat' split
+  all_goals first | (intro _; rfl) | (intro h; cases h)
+
+/-- **abort_pristine_identity.**  Abort of a stream that has stored nothing (no chunk flushed, no marker)
+    is the identity on the store: no document of any file id — in particular of an existing file with
+    the same id — is touched. -/
+theorem abort_pristine_identity (st : Store) (s : UploadStream) (hc : s.chunks = 0) (hm : s.marker = none) :
+    (s.abort st).1 = st := by
+  unfold UploadStream.abort
+  split <;> simp [hc, hm]
+
+/-- **failed_resume_abort_harmless.**  A new stream for ANY id (e.g. the id of a finished, unclaimed
+    upload) whose Resume is rejected and which is then aborted leaves the whole store unchanged. -/
+theorem failed_resume_abort_harmless (st : Store) (tracked : Bool) (id c B : Nat) (e : Err)
+    (h : ((UploadStream.new tracked id c B).resume st).2.2 = some e) :
+    (((UploadStream.new tracked id c B).resume st).1.abort st).1 = st := by
+  rw [failed_resume_pristine st _ e h]
+  exact abort_pristine_identity st _ rfl rfl
+
+/-- a finished, unclaimed upload (marker `uploaded`): Resume of a second stream is rejected with
+    "invalid marker state" and its Abort keeps the marker -/
+example := failed_resume_abort_harmless { markers := [⟨0, 1, .uploaded, 10, 4⟩], nextId := 1 } true 1 4 8 .badState (by decide)
+
+example := abort_pristine_identity { chunks := [⟨1, 0, [1, 2, 3, 4]⟩], files := [⟨1, 4, 4⟩] }
+  (UploadStream.new false 1 4 8) rfl rfl
+
 end Lungo.C18
